@@ -20,13 +20,17 @@
 (***************************************************************************)
 EXTENDS DnsWire, Json
 
-CONSTANTS Fams,        \* subset of {"types","multi","hdr","names","optend","combo","api","big"}
+CONSTANTS Fams,        \* subset of {"types","multi","hdr","names","optend","combo","api","sfx","big"}
           ComboN,      \* number of pseudo-random multi-RR records in family "combo"
           Seed,        \* seed of that family
+          SfxLen,      \* family "sfx": all ordered triples of the names with 1..SfxLen labels over {a, b}
           MutKinds,    \* subset of {"trunc","subst","len","rdlen","ptr"}
           Stride,      \* substitutions only at offsets with off % Stride = Phase
           Phase,
-          FlagSet,     \* parse-flag values for which the reference verdict is printed
+          FlagSet,     \* parse-flag values for which the reference verdict is printed (every vector)
+          XFlagSet,    \* parse-flag values printed in addition for the unmutated vectors of the families
+          XFlagFams,   \*   XFlagFams in the layouts XFlagLays (the parse-flag dimension: all 64 combinations
+          XFlagLays,   \*   of the six per-section ARES_DNS_PARSE_*_RAW bits, see FlagsSound)
           MutLays,     \* layouts (3: all names compressed, 5: also where RFC 3597 forbids) that get mutated
           Emit,        \* TRUE: print vectors
           AsCoded      \* TRUE: enumerate only the as-coded writer layouts (must violate WriterSound)
@@ -249,6 +253,39 @@ NamesRecs ==
          <<RR(NamePool[i], TNS, 1, T1, [k |-> "NS", name |-> NamePool[((i + 4) % Len(NamePool)) + 1]])>>,
          <<>>, <<>>)]
 
+(* Name families with shared label sequences in three and more positions.  *)
+(* SfxU = every name of 1..SfxLen labels over the two labels a, b (2, 6,   *)
+(* 14 names for SfxLen = 1, 2, 3).  For EVERY ordered triple (x, y, z) of  *)
+(* SfxU one message whose names appear on the wire in the order            *)
+(*    x  question            y  owner (answer)      z  NS RDATA            *)
+(*    z  owner (authority)   y  MX RDATA            x  owner (additional)  *)
+(*    z  SRV RDATA (never compressed, never a pointer target)              *)
+(* so that every relation between an earlier and a later name occurs in    *)
+(* every order: equal, suffix (b.a after a), prefix (b after b.a: the      *)
+(* later name is a label PREFIX of an earlier one, nothing may be shared), *)
+(* inner label sequence (a.b.a / b), common suffix with different heads,   *)
+(* and chains of those (a, then b.a compressed against it, then b or a.b). *)
+(* Whatever the layout, a name may only be replaced by a pointer to an     *)
+(* earlier name that ENDS with it (RoundTrip, WriterSound).                *)
+RECURSIVE SfxOfLen(_)
+SfxOfLen(n) ==
+  IF n = 1 THEN <<<<la>>, <<lb>>>>
+  ELSE LET p == SfxOfLen(n - 1)
+       IN  [i \in 1..(2 * Len(p)) |->
+              <<IF i <= Len(p) THEN la ELSE lb>> \o p[((i - 1) % Len(p)) + 1]]
+RECURSIVE SfxUpTo(_)
+SfxUpTo(n) == IF n = 0 THEN <<>> ELSE SfxUpTo(n - 1) \o SfxOfLen(n)
+SfxU == SfxUpTo(SfxLen)
+SfxRec(x, y, z) ==
+  Msg(StdHdr, <<Q(x, TNS, 1)>>,
+      <<RR(y, TNS, 1, T1, [k |-> "NS", name |-> z])>>,
+      <<RR(z, TMX, 1, T1, [k |-> "MX", preference |-> 1, exchange |-> y])>>,
+      <<RR(x, TSRV, 1, T1, [k |-> "SRV", priority |-> 1, weight |-> 2, port |-> 3, target |-> z])>>)
+SfxRecs ==
+  LET n == Len(SfxU)
+  IN  [i \in 1..(n * n * n) |->
+         SfxRec(SfxU[((i - 1) \div (n * n)) + 1], SfxU[(((i - 1) \div n) % n) + 1], SfxU[((i - 1) % n) + 1])]
+
 (* OPT as the very last thing in the message: option TLVs ending exactly   *)
 (* at the buffer end; SVCB params likewise                                 *)
 OptEndRecs == <<
@@ -268,8 +305,31 @@ BigRec(S) ==
         RR(N11, TA, 1, T1, [k |-> "A", addr |-> <<5, 6, 7, 8>>])>>,
       <<RR(N1, TNS, 1, T1, [k |-> "NS", name |-> N4])>>, <<>>)
 BigSizes == <<0, 1, 16346, 16347, 16348, 16349, 16400, 65000>>
+(* the 16-bit message size limit (DnsWire!MaxMsgLen): messages of exactly  *)
+(* 65534, 65535 and 65536 octets.  EdgeRec: one opaque RR with the root as *)
+(* owner, 35 + S octets whatever the layout.  EdgeRec2: compressible names *)
+(* and an OPT RR first, the padding RR LAST in the additional section:     *)
+(* 85 + S octets as the NameWriter lays it out (layout 7), 107 + S octets  *)
+(* without compression (layout 1).  EdgeLens states the intended lengths   *)
+(* (checked: invariant EdgeExact).                                         *)
+Pad0(S) == RR(N0, 65281, 1, T1, [k |-> "RAW", rtype |-> 65281, data |-> Str(S, 170)])
+EdgeRec(S)  == Msg(StdHdr, <<Q(N1, TA, 1)>>, <<Pad0(S)>>, <<>>, <<>>)
+EdgeRec2(S) ==
+  Msg(StdHdr, <<Q(N1, TA, 1)>>,
+      <<RR(N2, TCNAME, 1, T1, [k |-> "CNAME", name |-> N4])>>,
+      <<RR(N1, TNS, 1, T1, [k |-> "NS", name |-> N3])>>,
+      <<OptT[1], Pad0(S)>>)
+EdgeSizes  == <<65499, 65500, 65501>>               \* 35 + S  = 65534, 65535, 65536
+EdgeSizes2 == <<65449, 65450, 65451, 65428>>        \* 85 + S  = 65534, 65535, 65536;  107 + 65428 = 65535
+EdgeLens ==        \* <<index in BigRecs, layout, length>>
+  LET n == Len(BigSizes)
+  IN  {<<n + i, l, 35 + EdgeSizes[i]>> : i \in 1..3, l \in {1, 7}}
+      \cup {<<n + 3 + i, 7, 85 + EdgeSizes2[i]>> : i \in 1..4}
+      \cup {<<n + 3 + i, 1, 107 + EdgeSizes2[i]>> : i \in 1..4}
 BigRecs ==
   [i \in 1..Len(BigSizes) |-> BigRec(BigSizes[i])]
+  \o [i \in 1..Len(EdgeSizes) |-> EdgeRec(EdgeSizes[i])]
+  \o [i \in 1..Len(EdgeSizes2) |-> EdgeRec2(EdgeSizes2[i])]
   \o <<
     \* more than 65535 octets in total
     Msg(StdHdr, <<Q(N1, TA, 1)>>, <<Pad(40000), Pad(40000)>>, <<>>, <<>>),
@@ -352,6 +412,7 @@ FamRecs(f) ==
     [] f = "optend" -> OptEndRecs
     [] f = "combo"  -> ComboRecs
     [] f = "api"    -> ApiRecs
+    [] f = "sfx"    -> SfxRecs
     [] f = "big"    -> BigRecs
 
 -----------------------------------------------------------------------------
@@ -374,7 +435,7 @@ Lays(rec) ==
 
 LayIds(f) == IF AsCoded THEN {8, 9} ELSE
              IF f \in {"big", "api"} THEN {1, 7} ELSE IF f \in {"hdr", "optend"} THEN {1, 2, 7}
-             ELSE IF f = "combo" THEN {2, 3, 5, 7} ELSE 1..7
+             ELSE IF f = "combo" THEN {2, 3, 5, 7} ELSE IF f = "sfx" THEN {2, 4, 7} ELSE 1..7
 \* which base vectors get mutated
 MutLayIds(f) == IF f \in {"types", "multi", "names"} THEN MutLays
                 ELSE IF f \in {"hdr", "optend"} THEN {2} ELSE {}
@@ -487,6 +548,65 @@ WriterSound ==
 
 Total == Decode(v.bytes).k \in {"WF", "Lenient", "Malformed"}
 
+(* the message size limit: an encodable record whose encoding has at most  *)
+(* 65535 octets decodes (RoundTrip); one octet more and the bytes are not  *)
+(* a DNS message.  EdgeExact: the boundary vectors of family "big" have    *)
+(* exactly the intended lengths (non-vacuity of the 65534/65535/65536      *)
+(* cases).                                                                 *)
+SizeLimit ==
+  v.mut.k = "none" =>
+     LET st == EncodeSt(FamRecs(v.fam)[v.idx], Lays(FamRecs(v.fam)[v.idx])[v.lid])
+     IN  (st.ok /\ RecEncodable(FamRecs(v.fam)[v.idx])) =>
+            /\ v.encok <=> Len(v.bytes) <= MaxMsgLen
+            /\ (Decode(v.bytes).k = "Malformed") <=> (Len(v.bytes) > MaxMsgLen)
+EdgeExact ==
+  (v.fam = "big" /\ v.mut.k = "none") =>
+     \A e \in EdgeLens : (e[1] = v.idx /\ e[2] = v.lid) => Len(v.bytes) = e[3]
+
+(***************************************************************************)
+(* The parse-flag dimension.  ares_dns_parse(buf, len, flags) takes six    *)
+(* bits ARES_DNS_PARSE_{AN,NS,AR}_{BASE,EXT}_RAW; DnsWire!SelOf maps a     *)
+(* flag value to the set of <<section, class>> pairs it selects, class     *)
+(* "base" = the RFC 1035 types (names in RDATA may be compressed), "ext" = *)
+(* every other type.  What the flags mean, stated independently of how     *)
+(* DecodeSel is written, for a message that decodes without flags:         *)
+(*  - the flags never change the verdict Malformed / not Malformed, the    *)
+(*    questions, the header bits, or owner / type / class / TTL of any RR; *)
+(*  - an RR comes back uninterpreted (RAW, with its own type number)       *)
+(*    exactly when <<its section, the class of its type>> is selected, and *)
+(*    comes back exactly as without flags otherwise -- a bit of one        *)
+(*    section never affects another section, BASE never affects EXT types; *)
+(*  - the upper 8 bits of the 12-bit rcode live in the OPT RR: they are    *)
+(*    reported iff the OPT RR is interpreted, i.e. <<"ar","ext">> is not   *)
+(*    selected.                                                            *)
+(***************************************************************************)
+FlagsOf(vec) ==
+  IF vec.mut.k = "none" /\ vec.fam \in XFlagFams /\ vec.lid \in XFlagLays
+  THEN FlagSet \cup XFlagSet ELSE FlagSet
+
+HdrFields == {"id", "qr", "opcode", "aa", "tc", "rd", "ra", "z", "ad", "cd"}
+ViewRRs(full, got, sect, sel) ==
+  /\ Len(got) = Len(full)
+  /\ \A i \in 1..Len(full) :
+        IF <<sect, TypeClass(full[i].type)>> \in sel
+        THEN /\ got[i].rd.k = "RAW" /\ got[i].rd.rtype = full[i].type
+             /\ got[i].name = full[i].name /\ got[i].type = full[i].type
+             /\ got[i].class = full[i].class /\ got[i].ttl = full[i].ttl
+        ELSE got[i] = full[i]
+FlagsSound ==
+  (v.mut.k = "none" /\ v.encok) =>
+     LET full == Decode(v.bytes).rec
+     IN  \A fl \in FlagsOf(v) :
+            LET sel == SelOf(fl)
+                d   == DecodeSel(v.bytes, sel)
+            IN  /\ d.k # "Malformed"
+                /\ \A f \in HdrFields : d.rec[f] = full[f]
+                /\ d.rec.qd = full.qd
+                /\ ViewRRs(full.an, d.rec.an, "an", sel)
+                /\ ViewRRs(full.ns, d.rec.ns, "ns", sel)
+                /\ ViewRRs(full.ar, d.rec.ar, "ar", sel)
+                /\ d.rec.rcode = IF <<"ar", "ext">> \in sel THEN full.rcode % 16 ELSE full.rcode
+
 PresRoundTrip ==
   v.mut.k = "none" =>
     \A i \in 1..Len(NamePool) :
@@ -533,7 +653,7 @@ EmitVec ==
     PrintT(ToJson(
       [fam |-> v.fam, idx |-> v.idx, lid |-> v.lid, mut |-> v.mut, nb |-> v.bytes,
        encok |-> v.encok,
-       dec |-> LET fls == SetToSeq(FlagSet) IN [i \in 1..Len(fls) |-> DecOut(v.bytes, fls[i])],
+       dec |-> LET fls == SetToSeq(FlagsOf(v)) IN [i \in 1..Len(fls) |-> DecOut(v.bytes, fls[i])],
        names |-> IF v.fam = "big" THEN <<>> ELSE
                  LET offs == SetToSeq(NameOffs(v.bytes))
                  IN  SelectSeq([i \in 1..Len(offs) |-> NameOut(v.bytes, offs[i])],
